@@ -57,6 +57,7 @@ type Params struct {
 	CleanAgainP  float64
 	PreDeleteP   float64 // a standalone file is removed by hand before a lifetime
 	PreCorruptP  float64 // a snapshot file is damaged (storage fault) before a lifetime
+	PreEditP     float64 // a snapshot file gets a harmless hand edit (extra blank lines) before a lifetime
 	ExtraLifeP   float64 // a further edited run with another environment before the closing replay
 	NonTestNames bool
 }
@@ -220,7 +221,7 @@ func (b *builder) fillValues(c *scen.Call) {
 	}
 }
 
-var subNames = []string{"sub", "s1", "case_a", "b", "sub10", "sub2", "nest", "A", "1", "Sub", "sub.1", "sub-2", "v9a", "v10"}
+var subNames = []string{"sub", "s1", "case_a", "b", "sub10", "sub2", "nest", "A", "1", "Sub", "sub.1", "sub-2", "v9a", "v10", "7", "07", "50%_off"}
 
 func (b *builder) genNode(name, full string, site, depth int) *scen.TestNode {
 	r, p := b.r, b.p
@@ -250,6 +251,11 @@ func (b *builder) genNode(name, full string, site, depth int) *scen.TestNode {
 			}
 			used[sn] = true
 			n.Steps = append(n.Steps, scen.Step{Kind: "sub", Sub: b.genNode(sn, full+"/"+sn, site, depth+1)})
+			if sn == "7" && !used["07"] && r.Bool(0.6) {
+				// ids that differ only in the zero padding of a number
+				used["07"] = true
+				n.Steps = append(n.Steps, scen.Step{Kind: "sub", Sub: b.genNode("07", full+"/07", site, depth+1)})
+			}
 			if sn == "sub" && r.Bool(0.4) {
 				// a sibling whose name extends this one by a byte that sorts before '/'
 				sib := []string{"sub.1", "sub-2"}[r.Intn(2)]
@@ -800,6 +806,9 @@ func World(seed uint64, index int, p *Params) *check.World {
 	}
 	if r.Bool(p.PreCorruptP) {
 		l2.PreCorrupt = 1 + r.Intn(500)
+	}
+	if r.Bool(p.PreEditP) {
+		l2.PreEdit = 1 + r.Intn(500)
 	}
 	w.Lifetimes = append(w.Lifetimes, l2)
 	if r.Bool(p.ExtraLifeP) {
